@@ -42,6 +42,7 @@ type Case struct {
 	Skip   []int        `json:"skip,omitempty"` // skipable per column (0 unset, 1 true, 2 false)
 	Pre    int          `json:"pre,omitempty"`
 	Props  []gen.PropOp `json:"props,omitempty"`  // a property history on the columns, after Align and Skip
+	AppCB  int          `json:"appcb,omitempty"` // an application's own render-time cell callback, registered right after the table is created: 1 it reports an error for every other cell, 2 it never fails
 	Shadow bool         `json:"shadow,omitempty"` // the application has registered decorations of its own under the names of the formats (process-wide)
 	Poison bool         `json:"poison,omitempty"` // first, a sibling table is rendered in the target format and fails part-way  // >0: a long-lived target wrapper is created and rendered after Pre-1 operations, and rendered again at the end
 }
@@ -219,6 +220,23 @@ func registerShadows() {
 	})
 }
 
+// appCallback is an application's own cell callback: it looks at the cell and, in its failing form, reports an
+// error for the cells whose text has an odd length.  It sets nothing.
+type appCallback struct{ fails bool }
+
+func (a appCallback) UpdateProperties(po tabular.PropertyOwner) error {
+	if cell, ok := po.(*tabular.Cell); ok && a.fails && len(cell.String())%2 == 1 {
+		return fmt.Errorf("application callback: does not like %q", cell.String())
+	}
+	return nil
+}
+
+func registerApp(t tabular.Table, c Case) {
+	if c.AppCB > 0 {
+		t.RegisterPropertyCallback(t, tabular.CB_AT_RENDER, tabular.CB_ON_CELL, appCallback{fails: c.AppCB == 1})
+	}
+}
+
 func CheckCase(c Case) *ev.Violation {
 	if c.Shadow {
 		registerShadows()
@@ -227,20 +245,30 @@ func CheckCase(c Case) *ev.Violation {
 		poison(c.Target)
 	}
 	// reference: the same content on a core table, rendered exactly once by X.Wrap(t).Render()
-	refScript := gen.Script{Ops: c.Script.Ops}
-	ref, _ := gen.Build(refScript)
+	ref := gen.NewTable("core")
+	registerApp(ref, c)
+	refModel := &gen.Model{}
+	for _, op := range c.Script.Ops {
+		refModel.Step(ref, op)
+	}
 	settings(ref, c)
 	wantOut, wantErr := targetWrap(ref, c.Target).Render()
 
 	// the table under test: created by the chosen path, wrapped by the chain
 	inner := gen.NewTable(c.Script.Creator)
+	registerApp(inner, c)
 	var t tabular.Table = inner
 	var long renderer
 	var handles []tabular.Table // every wrapper of the chain, innermost first
 	var stepViolation *ev.Violation
 	// refAt renders the first k operations on a fresh core table, once.
 	refAt := func(k int) (string, error) {
-		r, _ := gen.Build(gen.Script{Ops: c.Script.Ops[:k]})
+		r := gen.NewTable("core")
+		registerApp(r, c)
+		rm := &gen.Model{}
+		for _, op := range c.Script.Ops[:k] {
+			rm.Step(r, op)
+		}
 		return targetWrap(r, c.Target).Render()
 	}
 	var foreign tabular.Table
@@ -434,6 +462,9 @@ func Classify(c Case) (bool, interface{}, []string) {
 	}
 	if c.Late {
 		cl = append(cl, "wrapped-after-build")
+	}
+	if c.AppCB == 1 {
+		cl = append(cl, "application-callback-that-reports-errors")
 	}
 	if c.Shadow {
 		cl = append(cl, "decorations-registered-under-format-names")
